@@ -349,6 +349,8 @@ pub fn child_main(space: &Space, prop: &str, k: usize, chunk: u64, resume: (u64,
         libc::setrlimit(libc::RLIMIT_AS, &lim);
         let core = libc::rlimit { rlim_cur: 0, rlim_max: 0 };
         libc::setrlimit(libc::RLIMIT_CORE, &core);
+        // a child must not outlive its driver (a killed driver used to leave spinning orphans)
+        libc::prctl(libc::PR_SET_PDEATHSIG, libc::SIGKILL);
     }
     let base = 8 + 4 * k;
     let sp = sample_points(space.n);
@@ -506,15 +508,70 @@ pub fn explore_isolated(space: &Space, cfg: &RunCfg, space_ordinal: usize, child
                         for w in 0..4 {
                             shm_ref.store(base + w, 0);
                         }
-                        let out = Command::new(&exe)
+                        let mut child = Command::new(&exe)
                             .args(child_args)
                             .arg("--child")
                             .arg(format!("{}:{}:{}:{}:{}:{}:{}", space_ordinal, k, chunk, resume.0, resume.1, remaining.as_millis(), shm_path_ref))
                             .stdin(Stdio::null())
+                            .stdout(Stdio::piped())
                             .stderr(Stdio::null())
                             .env("RUST_BACKTRACE", "0")
-                            .output()
+                            .spawn()
                             .expect("spawn child");
+                        // watchdog: a case that does not return is a verdict (the call neither returns
+                        // Ok nor an error), not something to wait for. Progress = the published case
+                        // index / the done counter in the shared words.
+                        let mut pipe = child.stdout.take().expect("child stdout");
+                        let reader = std::thread::spawn(move || {
+                            use std::io::Read;
+                            let mut buf = Vec::new();
+                            let _ = pipe.read_to_end(&mut buf);
+                            buf
+                        });
+                        let hang_limit = Duration::from_secs(std::env::var("VERIF_HANG_SECS").ok().and_then(|v| v.parse().ok()).unwrap_or(300));
+                        let mut last = (shm_ref.load(base), shm_ref.load(base + 1));
+                        let mut last_change = Instant::now();
+                        let mut hung = false;
+                        let status = loop {
+                            match child.try_wait() {
+                                Ok(Some(st)) => break st,
+                                Ok(None) => {}
+                                Err(_) => {}
+                            }
+                            let now = (shm_ref.load(base), shm_ref.load(base + 1));
+                            if now != last {
+                                last = now;
+                                last_change = Instant::now();
+                            } else if now.0 != 0 && last_change.elapsed() > hang_limit {
+                                hung = true;
+                                let _ = child.kill();
+                                break child.wait().expect("wait child");
+                            }
+                            std::thread::sleep(Duration::from_millis(20));
+                        };
+                        let stdout = reader.join().unwrap_or_default();
+                        struct Out {
+                            status: std::process::ExitStatus,
+                            stdout: Vec<u8>,
+                        }
+                        let out = Out { status, stdout };
+                        if hung {
+                            let idx = shm_ref.load(base).saturating_sub(1);
+                            let done_cases = shm_ref.load(base + 1);
+                            rep.cases += done_cases + 1;
+                            rep.crashes += 1;
+                            let sig = format!("{}|hang|a case did not return within {} s (killed)", cfg.prop, hang_limit.as_secs());
+                            *rep.sig_counts.entry(sig.clone()).or_insert(0) += 1;
+                            rep.viols.push(Viol { space: space.name.clone(), idx, sig, detail: json!({"hung_case_index": idx, "limit_s": hang_limit.as_secs()}) });
+                            resume = (idx + 1, shm_ref.load(base + 3));
+                            restarts += 1;
+                            if restarts > 3 {
+                                rep.cap_hit = true;
+                                rep.notes.insert("isolated children stopped after repeated hangs".into(), 1);
+                                break;
+                            }
+                            continue;
+                        }
                         if out.status.success() {
                             let text = String::from_utf8_lossy(&out.stdout);
                             let line = text.lines().rev().find(|l| l.starts_with('{')).unwrap_or("{}");
